@@ -111,6 +111,7 @@ props["C06"] = {
     "runs": [
         run("root", "VxC06Compact", {"K": 2, "C": 3, "DST": 1}, {"K": 3, "C": 3, "DST": 1}),
         run("root", "VxC06Compact", {"K": 2, "C": 2, "DST": 2}, {"K": 2, "C": 3, "DST": 2}, note="level 1 -> level 2, multi-TXID inputs"),
+        run("root", "VxC08Latest", {"N": 3, "M": 5}, {"N": 4, "M": 6}, note="whichever mix of levels a replica holds, the plan for the latest state is a valid chain and is found when one exists (shared with C08)"),
         run("root", "VxC06DBCompact", {"N": 3}, {"N": 4}, note="DB.Compact(1) with the DB's own compactor wiring and a local directory that is a suffix of / one ahead of the replica, followed by level-0 retention"),
         run("root", "VxC02Snapshot", {}, {}, note="level-9 snapshots (DB.Snapshot's page source): size and every page equal the state at the advertised position, also after a shrink (shared with C02)"),
     ],
@@ -269,6 +270,7 @@ props["C10"] = {
         run("internal", "VxC10Limited", {}, {}),
         run("root", "VxC10Restore", {}, {}),
         run("root", "VxC10Integrity", {}, {}),
+        run("root", "VxC10Hole", {}, {}, note="a replica without level-0 files whose middle compacted file is gone"),
     ],
     "assumptions": [
         "a storage stream is honest about bytes (it returns the file's bytes at its position) but may return any count up to the buffer, end early or fail at every Read; every reopen may succeed, report not-exist or fail",
@@ -282,11 +284,13 @@ props["C10"] = {
 
 props["C13"] = {
     "level": "model_checking", "validate": 6,
+    "unreached_ok": ["snapshot-advertises-local-position", "snapshot-decodes", "snapshot-range-is-1-to-pos", "snapshot-size-is-size-at-pos", "snapshot-holds-every-page-once", "page-image-is-the-one-at-pos", "checkpoint-lock-released-after-read"],
     "runs": [
         run("root", "VxC13Bound", {}, {}),
         run("root", "VxC13Lag", {}, {}),
         run("root", "VxC13Idle", {}, {}),
         run("root", "VxC13Busy", {}, {}),
+        run("root", "VxC02Snapshot", {}, {}, note="a failed snapshot attempt leaves the checkpoint lock free (shared with C02)"),
         run("root", "VxC13Rounds", {"ONEPS": 1}, {}, note="the real syncLocked over a burst round (checkpoint possibly refused) and an idle round: a skipped checkpoint is retried"),
     ],
     "assumptions": [
